@@ -1,6 +1,8 @@
 import Model.Uuid
 import Model.UuidDecode
 import Model.UuidGen
+import Model.UuidConc
+import Model.UuidErr
 import Driver.Util
 namespace Driver.C19
 open Util
@@ -61,6 +63,41 @@ def parseLits (s : String) : Option (List (List UInt8)) :=
 
 def quoted (bs : List UInt8) : List UInt8 := 34 :: bs ++ [34]
 
+/-- a schedule word of the `sched` op: `n<g>` `i<g>` `c<g>` `w<d>` `r<k>:<g>:<d>` -/
+def parseWord (w : String) : Option Uuid.Word :=
+  let rest := (w.drop 1).toString
+  match w.take 1 |>.toString with
+  | "n" => rest.toNat?.map .now
+  | "i" => rest.toNat?.map .inc
+  | "c" => rest.toNat?.map .call
+  | "w" => rest.toNat?.map .adv
+  | "r" => match rest.splitOn ":" with
+    | [k, g, d] => do
+      let k ← k.toNat?
+      let g ← g.toNat?
+      let d ← d.toNat?
+      pure (.rep k g d)
+    | _ => none
+  | _ => none
+
+/-- an error value on the wire: `ok` | `<E|M|U>:<hex of the text>` | `<E|M|U>:nonascii` -/
+def showErr : Option Uuid.Err → String
+  | none => "ok"
+  | some e =>
+    (match e.kind with | .plain => "E:" | .marshal => "M:" | .unmarshal => "U:") ++
+    (match e.text with | some t => toHex t | none => "nonascii")
+
+/-- the `genrun` / `genrunx` answer -/
+def genrunAns (c hw s ns n ev st : String) : String :=
+      match natArg c, parseHex hw, intArg s, natArg ns, natArg n, natArg ev, natArg st with
+      | some c, some hw, some s, some ns, some n, some ev, some st =>
+        let us := Uuid.genRun hw c (Uuid.steppedReadings s ns ev st n)
+        let verdict := match Uuid.firstDup us with
+          | some (i, j) => s!"dup:{i},{j}"
+          | none => "distinct"
+        s!"{verdict} first={toHex (us.headD [])} last={toHex (us.getLastD [])} ctr={Uuid.genCtr c n}"
+      | _, _, _, _, _, _, _ => "bad-op"
+
 /-- ops:
   parse <hex of the string bytes>      → hex uuid | err
   print <hex16>                        → canonical string
@@ -88,8 +125,30 @@ def quoted (bs : List UInt8) : List UInt8 := 34 :: bs ++ [34]
   ucql <col> <kind> <prev> <data|null> → ok|err <destination afterwards>   (gocql.Unmarshal, uuid/timeuuid column)
   ucqlt <col> <sec> <nsec> <data|null> → ok|err <sec.nsec afterwards>     (gocql.Unmarshal into a *time.Time)
   mcql <kind> <content>                → ok <16 bytes> | err               (gocql.Marshal of a uuid column value)
+  ucqln <col> <kind> <prev|nilptr> <data|null|-> → ok|err nilptr|<content of the NEW pointee>  (gocql.Unmarshal into a **T)
+  ucqlnt <col> <prev|nilptr> <data|null> → ok|err nilptr|<sec.nsec>          (gocql.Unmarshal into a **time.Time)
+  casscmp <hex16> <hex16>              → le|gt ge|lt: Spec.cassLe both ways, against a transliteration of Cassandra's TimeUUIDType.compareCustom
+                                         (long arithmetic: reorderTimestampBytes, signedBytesToNativeLong) in the harness — validates the SPEC, no gocql code
+  genord <sa> <na> <sb> <nb>           → lt|gt|same-tick bounds=ok: UUIDFromTime(a) vs UUIDFromTime(b) under Cassandra's order (random counter and
+                                         nodes, chosen by the harness), and each within Min/MaxTimeUUID of its instant (C19_generated_cass_order)
+  randn <hex, any length>              → ok <uuid> v=4 var=2 must=ok | err <16 bytes, partly filled> must=panic   (RandomUUID / MustRandomUUID
+                                         when rand.Reader can deliver only these bytes)
+  mcqlx <unset|nilval|int|…>           → ok null | err                      (gocql.Marshal of the remaining value kinds)
+  etext <text> / ejson <data> / emcql <col> <kind> <content> / eucql <col> <kind> <data|null> / eucqlt <col> <data|null>
+                                       → ok | <E|M|U>:<hex of err.Error()> | <E|M|U>:nonascii   (Go error type: other / MarshalError / UnmarshalError)
+  ucqlum <col> <direct|nullable> <data|null|-> → ok called <col> <data> | ok nilptr    (gocql.Unmarshal into a user Unmarshaler / a **Unmarshaler)
+  mcqlm <col> <value|ptr|nilptr> <data|null|-> → ok <data>                         (gocql.Marshal of a user Marshaler returning these bytes)
+  mcqlp <hex16|nil>                    → ok null|<16 bytes>                (gocql.Marshal of a *UUID)
   useq <prev16> <step>...              → ok:<dst>|err:<dst> per step, all on ONE destination
   rtdirty <prev16> <u16>               → u (every printer → every decoder, destination holding prev)
+  sched <c0> <hw> <sec> <nsec> <word>… → distinct|dup:<i>,<j> n=<returned> ctr=<counter> inflight=<k> mon=ok|BROKEN h=<hash of all results> [g:uuid …]
+                                         (mon: timestamps inside [tick start, tick end] and non-decreasing per goroutine, C19_conc_goroutine_timestamps_monotone)
+                                         a SCHEDULE of the two steps of TimeUUID() per goroutine (n<g> reading, i<g> increment, c<g> both,
+                                         w<d> wall clock +d ns, r<k>:<g>:<d> = k times w<d> c<g>) run through Model/UuidConc;
+                                         ≤ 16384 returns ⇒ distinct for every interleaving (C19_conc_unique_upto_16384); schedx = longer
+  range <sa> <na> <sb> <nb> <hex16>    → incl=in|out excl=in|out: is the v1 RFC 4122 UUID selected by
+                                         [MinTimeUUID(a), MaxTimeUUID(b)] / by (MaxTimeUUID(a), MinTimeUUID(b)) under Cassandra's order
+                                         (C19_range_inclusive / C19_range_exclusive: exactly tick a ≤ ts ≤ tick b / tick a < ts < tick b)
   tsround / timeround / bound / randchk / parsechk: property oracles, see below -/
 def step (_ : Unit) (ws : List String) : Unit × String :=
   ((), match ws with
@@ -144,6 +203,33 @@ def step (_ : Unit) (ws : List String) : Unit × String :=
       | some s, some n, some u =>
         if Uuid.Spec.cassLe (Uuid.minTimeUUID s n) u && Uuid.Spec.cassLe u (Uuid.maxTimeUUID s n) then "bounded" else "NOT-BOUNDED"
       | _, _, _ => "bad-op"
+  | ["range", sa, na, sb, nb, h] => match intArg sa, natArg na, intArg sb, natArg nb, parseHex h with
+      -- C19_range_inclusive / C19_range_exclusive (the specification side: ticks and the timestamp field only)
+      | some sa, some na, some sb, some nb, some u =>
+        let ta := Uuid.tick (sa, na)
+        let tb := Uuid.tick (sb, nb)
+        let ts := Uuid.timestamp u
+        let io := fun (b : Bool) => if b then "in" else "out"
+        s!"incl={io (decide (ta ≤ ts) && decide (ts ≤ tb))} excl={io (decide (ta < ts) && decide (ts < tb))}"
+      | _, _, _, _, _ => "bad-op"
+  | ["casscmp", a, b] => match parseHex a, parseHex b with   -- Spec.cassLe against the harness's transliteration of compareCustom
+      | some u, some v => (if Uuid.Spec.cassLe u v then "le" else "gt") ++ (if Uuid.Spec.cassLe v u then " ge" else " lt")
+      | _, _ => "bad-op"
+  | ["genord", sa, na, sb, nb] => match intArg sa, natArg na, intArg sb, natArg nb with   -- C19_generated_cass_order
+      | some sa, some na, some sb, some nb =>
+        let ta := Uuid.tick (sa, na)
+        let tb := Uuid.tick (sb, nb)
+        (if ta < tb then "lt" else if tb < ta then "gt" else "same-tick") ++ " bounds=ok"
+      | _, _, _, _ => "bad-op"
+  | ["randn", h] => match parseHex h with                               -- C19_random_total
+      | some bs =>
+        let r := Uuid.randomUUID bs
+        if r.1 then s!"ok {toHex r.2} v={Uuid.version r.2} var={Uuid.variant r.2} must=ok" else s!"err {toHex r.2} must=panic"
+      | none => "bad-op"
+  | ["mcqlx", k] =>   -- marshalUUID: UnsetValue and a nil interface are a null column, any other Go type an error
+      if k == "unset" || k == "nilval" then "ok null"
+      else if k == "int" || k == "float" || k == "bool" || k == "time" || k == "arr15" || k == "uuidslice" then "err"
+      else "bad-op"
   | ["randchk", h] => match parseHex h with                             -- C19_random_v4
       | some u => s!"v={Uuid.version (Uuid.stampV4 u)} var={Uuid.variant (Uuid.stampV4 u)}"
       | none => "bad-op"
@@ -180,6 +266,57 @@ def step (_ : Unit) (ws : List String) : Unit × String :=
         let r := Uuid.unmarshalCQLTime (col == "timeuuid") (d.getD []) (ps, pn)
         (if r.1 then "ok " else "err ") ++ s!"{r.2.1}.{r.2.2}"
       | _, _, _ => "bad-op"
+  | ["ucqln", _, kind, _, d] =>                                                   -- C19_cql_nullable_spec
+      -- the previous pointer / pointee (4th word) is irrelevant: a null gives nil, anything else a fresh value
+      match parseDst kind (if kind == "bytes" then "nil" else if kind == "str" then "-" else "00000000000000000000000000000000"),
+            optBytes d with
+      | some k, some d =>
+        let r := Uuid.unmarshalNullable d k
+        (if r.1 then "ok " else "err ") ++ (match r.2 with | none => "nilptr" | some v => showDst v)
+      | _, _ => "bad-op"
+  | ["ucqlnt", col, _, d] => match optBytes d with                                -- C19_cql_nullable_time
+      | some d =>
+        let r := Uuid.unmarshalNullableTime (col == "timeuuid") d
+        (if r.1 then "ok " else "err ") ++ (match r.2 with | none => "nilptr" | some t => s!"{t.1}.{t.2}")
+      | none => "bad-op"
+  -- error values (Model/UuidErr.lean; C19_error_iff_failure)
+  | ["etext", t] => match parseHex t with
+      | some t => showErr (Uuid.textErr t)
+      | none => "bad-op"
+  | ["ejson", d] => match parseHex d with
+      | some d => showErr (Uuid.jsonErr d)
+      | none => "bad-op"
+  | ["emcql", col, kind, c] => match (if kind == "bytes" then (optBytes c).map Uuid.Dst.bytes else parseDst kind c) with
+      | some v => showErr (Uuid.marshalErr (col == "timeuuid") v)
+      | none => "bad-op"
+  | ["eucql", col, kind, d] =>
+      match parseDst kind (if kind == "bytes" then "nil" else if kind == "str" then "-" else "00000000000000000000000000000000"),
+            optBytes d with
+      | some k, some d => showErr (Uuid.unmarshalErr (col == "timeuuid") (d.getD []) k)
+      | _, _ => "bad-op"
+  | ["eucqlt", col, d] => match optBytes d with
+      | some d => showErr (Uuid.unmarshalTimeErr (col == "timeuuid") (d.getD []))
+      | none => "bad-op"
+  -- user types: an Unmarshaler destination gets (column type, column value) verbatim — also through a nullable **T, where a
+  -- null never reaches it (nil pointer); a Marshaler value's bytes are the column value, unvalidated; a nil pointer is null
+  | ["ucqlum", col, ptr, d] => match optBytes d with
+      | some d =>
+        let shown := match d with | none => "null" | some b => toHex b
+        if ptr == "direct" then s!"ok called {col} {shown}"
+        else if ptr == "nullable" then (match d with | none => "ok nilptr" | some _ => s!"ok called {col} {shown}")
+        else "bad-op"
+      | none => "bad-op"
+  | ["mcqlm", _, ptr, d] => match optBytes d with
+      | some d =>
+        let shown := match d with | none => "null" | some b => toHex b
+        if ptr == "value" || ptr == "ptr" then s!"ok {shown}" else if ptr == "nilptr" then "ok null" else "bad-op"
+      | none => "bad-op"
+  | ["mcqlp", c] => match optBytes c with                                         -- C19_cql_nullable_roundtrip
+      | some u => match Uuid.marshalPtr u with
+        | some none => "ok null"
+        | some (some b) => "ok " ++ toHex b
+        | none => "err"
+      | none => "bad-op"
   | ["mcql", kind, c] => match (if kind == "bytes" then (optBytes c).map Uuid.Dst.bytes else parseDst kind c) with
       | some v => match Uuid.marshalCQL v with                                    -- C19_cql_marshal_unmarshal
         | some b => "ok " ++ toHex b
@@ -204,16 +341,24 @@ def step (_ : Unit) (ws : List String) : Unit × String :=
   | ["burst", c, g, n, _, _] => match natArg c, natArg g, natArg n with
       | some c, some g, some n => s!"ok ctr={Uuid.genCtr c (g * n)}"
       | _, _, _ => "bad-op"
-  | [op, c, hw, s, ns, n, ev, st] =>
-      if op != "genrun" && op != "genrunx" then "bad-op" else
-      match natArg c, parseHex hw, intArg s, natArg ns, natArg n, natArg ev, natArg st with
-      | some c, some hw, some s, some ns, some n, some ev, some st =>
-        let us := Uuid.genRun hw c (Uuid.steppedReadings s ns ev st n)
+  | ["genrun", c, hw, s, ns, n, ev, st] => genrunAns c hw s ns n ev st
+  | ["genrunx", c, hw, s, ns, n, ev, st] => genrunAns c hw s ns n ev st
+  | op :: c :: hw :: sec :: ns :: words =>
+      -- sched: at most 16384 calls return ⇒ distinct (C19_conc_unique_upto_16384); schedx: longer schedules
+      -- (C19_conc_dup_iff / C19_conc_dup_descheduled say which repeat), model vs code
+      if op != "sched" && op != "schedx" then "bad-op" else
+      match natArg c, parseHex hw, intArg sec, natArg ns, words.mapM parseWord with
+      | some c, some hw, some sec, some ns, some ws =>
+        let s := Uuid.concRunFast hw (Uuid.concInit c (sec, ns)) (Uuid.expandWords sec ns ws 0)
+        let us := s.out.map (·.uuid)
         let verdict := match Uuid.firstDup us with
           | some (i, j) => s!"dup:{i},{j}"
           | none => "distinct"
-        s!"{verdict} first={toHex (us.headD [])} last={toHex (us.getLastD [])} ctr={Uuid.genCtr c n}"
-      | _, _, _, _, _, _, _ => "bad-op"
+        let listing := if s.out.length ≤ 24 then
+            String.join (s.out.map fun r => s!" {r.g}:{toHex r.uuid}") else ""
+        let mon := if Uuid.monitorsOk (sec, ns) s.wall s.out then "ok" else "BROKEN"
+        s!"{verdict} n={s.out.length} ctr={s.clockSeq} inflight={s.held.length} mon={mon} h={Uuid.foldHash us}{listing}"
+      | _, _, _, _, _ => "bad-op"
   | ["conc", g, n] => match natArg g, natArg n with
       | some g, some n => if g * n ≤ 16384 then "distinct" else "unconstrained"
       | _, _ => "bad-op"
